@@ -90,3 +90,11 @@ def load_sidecars():
     for name in sorted(os.listdir(os.path.join(here, "contracts"))):
         if name.endswith(".py") and not name.startswith("_"):
             importlib.import_module(f"contracts.{name[:-3]}")
+
+
+class NotExecutable(Exception):
+    """a clause that mentions ghost state (callee locals) has no run-time reading"""
+
+
+def local(name):
+    raise NotExecutable(name)
